@@ -47,6 +47,13 @@ def cls {α} : Outcome α → String
   | .err _ => "err"
   | .panic _ => "panic"
 
+/-- `hexName/1.2.3,…` (`~` = empty path, `-` = no client properties) -/
+def prClientProps (cps : List RProp) : String :=
+  if cps.isEmpty then "-"
+  else ",".intercalate (cps.map fun p =>
+    Wire.encStr p.json ++ "/" ++
+      (if p.path.isEmpty then "~" else ".".intercalate (p.path.map fun n => toString n)))
+
 /-- the `SchemaCache.Schema` calls over every message of the set, on one cache -/
 def cacheLoop (ds : DescSet) : Reg → List String → List String
   | _, [] => []
@@ -60,7 +67,20 @@ def cacheLoop (ds : DescSet) : Reg → List String → List String
         | .ok _ => cls (newRoot ds reg' m)
         | .err _ => "err"
         | .panic _ => "panic"
-      (Wire.encStr m.split ++ ":" ++ cls res ++ ":" ++ root) :: cacheLoop ds reg' rest
+      -- ObjectSchema.ClientProperties() of the schema just returned: names and proto paths
+      let cp := match res with
+        | .ok _ =>
+          match reg'.find m.pkg m.split with
+          | some e =>
+            match e.to with
+            | some (.object _ _ _ _ ps) =>
+              match clientProps reg' [⟨m.pkg, m.split⟩] ps with
+              | .ok cps => prClientProps cps
+              | _ => "!"
+            | _ => "-"
+          | none => "-"
+        | _ => "-"
+      (Wire.encStr m.split ++ ":" ++ cls res ++ ":" ++ root ++ ":cp=" ++ cp) :: cacheLoop ds reg' rest
 
 def stepReflect (toks : List String) : String :=
   match toks with
